@@ -743,3 +743,75 @@ def check_set_empty_writers(ctx) -> None:
                 ctx.violation("A6", c, f"set_empty value `{norm(val)}` does not come from ClassDB.is_empty/_is_empty")
     if n < 3:
         raise AnalysisError(f"A6: {n} set_empty call sites found, floor 3")
+
+
+def t12_class_or_label(ctx) -> None:
+    """ClassDB's emptiness API takes a class *or* a label.  Before `.is_empty()` is asked of the
+    value it has been turned into a class (`if not isinstance(x, self.combinatorial_class): x =
+    self.get_class(x)`) -- in _is_empty itself, or in every caller on the way."""
+    P = ctx.P
+    m = P.need_method("ClassDB", "_is_empty", own=True)
+    f = m.node
+    ctx.analysed(m)
+    p = [x for x in D.param_names(f) if x != "self"][0]
+
+    def converts(fn, name) -> bool:
+        for st in walk_local(fn):
+            t, v = (st.targets[0], st.value) if isinstance(st, ast.Assign) and len(st.targets) == 1 else (None, None)
+            if isinstance(t, ast.Name) and t.id == name and v is not None and norm(v) == f"self.get_class({name})":
+                gs = {(norm(g), pol) for g, pol in C.flatten_guards(C.guards(fn, st))}
+                if (f"isinstance({name}, self.combinatorial_class)", False) in gs:
+                    return True
+        return False
+
+    asks = [c for c in walk_local(f) if isinstance(c, ast.Call) and norm(c.func) == f"{p}.is_empty"]
+    if not asks:
+        ctx.violation("T10", f, f"ClassDB._is_empty must return {p}.is_empty(), the class's own answer", construct="ClassDB._is_empty answer")
+        return
+    if converts(f, p):
+        ctx.ok("T10", "_is_empty turns a label into its class before asking it")
+        return
+    callers = []
+    for fi in P.all_functions():
+        for c in walk_local(fi.node):
+            if isinstance(c, ast.Call) and isinstance(c.func, ast.Attribute) and c.func.attr == "_is_empty" and c.args:
+                callers.append((fi, c))
+    bad = [(fi, c) for fi, c in callers if not (isinstance(c.args[0], ast.Name) and converts(fi.node, c.args[0].id))]
+    if callers and not bad:
+        ctx.ok("T10", "every caller of _is_empty hands it a class (labels are converted first)")
+    else:
+        where = bad[0][1] if bad else asks[0]
+        ctx.violation("T10", where, f"`{p}.is_empty()` is asked of a value that may still be a label: neither _is_empty nor its caller converts it with self.get_class(...) under "
+                      "`not isinstance(..., self.combinatorial_class)`; is_empty(label) then fails for a label whose emptiness is not cached yet")
+
+
+def t13_membership_of_total_mappings(ctx) -> None:
+    """LabelToInfo / ClassToInfo answer `None` for a key they do not know (their __getitem__ is
+    total) and do not define __contains__: the Mapping mix-in's `key in m` is then True for
+    every key.  Membership must be decided by `m.get(key) is not None`."""
+    P = ctx.P
+    total = []
+    for cname in ("LabelToInfo", "ClassToInfo"):
+        cls = P.classes.get(cname)
+        if cls is None or "__contains__" in cls.methods:
+            continue
+        gi = cls.methods.get("__getitem__")
+        if gi is None:
+            continue
+        returns_none = any(r.value is None or (isinstance(r.value, ast.Constant) and r.value.value is None) for r in C.returns_of(gi.node)) or \
+            "Optional" in (norm(gi.node.returns) if gi.node.returns is not None else "")
+        if returns_none:
+            total.append(cname)
+    attrs = {"LabelToInfo": "label_to_info", "ClassToInfo": "class_to_info"}
+    n = 0
+    for fi in P.all_functions():
+        for x in walk_local(fi.node):
+            if isinstance(x, ast.Compare) and len(x.ops) == 1 and isinstance(x.ops[0], (ast.In, ast.NotIn)):
+                r = x.comparators[0]
+                for cname in total:
+                    if isinstance(r, ast.Attribute) and r.attr == attrs[cname]:
+                        n += 1
+                        ctx.violation("T9", x, f"{fi.qualname}: `{norm(x)}` uses the Mapping mix-in's membership on a {cname}, whose __getitem__ returns None instead of raising: "
+                                      "the test is True for every key, so a label that was never issued counts as known")
+    if total:
+        ctx.ok("T9", f"no membership test relies on the Mapping mix-in of {', '.join(total)} (their __getitem__ is total)")
